@@ -355,6 +355,15 @@ func c16Scenario(depth, k, p int) mc.Scenario {
 				// operations that remove / select / add nothing: still a new, independent schema
 				ops = append(ops, op{"Omit()", func() { derive(s.Omit(), m.clone()) }})
 				ops = append(ops, op{"Omit(zz)", func() { derive(s.Omit("zz"), m.clone()) }})
+				// a shared list of names to hide, longer than the schema has fields and mostly naming none of them
+				ops = append(ops, op{"Omit(zz, zy, zx, zw, zv, zu)", func() { derive(s.Omit("zz", "zy", "zx", "zw", "zv", "zu"), m.clone()) }})
+				if hasA {
+					ops = append(ops, op{"Omit(a, zz, zy, zx, zw, zv)", func() {
+						nm := m.clone()
+						delete(nm.fields, "a")
+						derive(s.Omit("a", "zz", "zy", "zx", "zw", "zv"), nm)
+					}})
+				}
 				ops = append(ops, op{"Omit(map{a:false,zz:true})", func() { derive(s.Omit(map[string]bool{"a": false, "zz": true}), m.clone()) }})
 				ops = append(ops, op{"Extend({})", func() { derive(s.Extend(z.Schema{}), m.clone()) }})
 				if hasA && hasB && hasC && len(m.fields) == 3 {
